@@ -40,4 +40,34 @@ var props = map[string]Prop{
 			"accessor results are only compared when the value is representable (no uint64/float64 overflow)",
 		},
 	},
+	"C15": {
+		Stages: []Stage{
+			{Name: "exhaustive", Test: "TestC15Exhaustive", Shards: [2]int{4, 16}, Timeout: [2]time.Duration{5 * min, 30 * min}},
+			{Name: "random", Test: "TestC15Random", Shards: [2]int{2, 16}, Checks: [2]int{8000, 60000}, SeedOffset: 1, Timeout: [2]time.Duration{5 * min, 20 * min}},
+		},
+		Rule: "exhaustive: every string of length <= 4 (quick) / <= 5 (thorough) over the 27-symbol alphabet (contains ';', all three quotes, '/', '!', newline); random: rapid-generated concatenations of statement fragments, semicolons, unterminated tokens and look-ahead lexemes. Oracle: join(pieces, ';') == source; #pieces == #semicolon tokens + 1; each piece is the text between consecutive semicolon tokens; Scan(piece) has no semicolon token and equals the context tokens shifted by the piece offset; Parse(source) succeeds iff every non-empty piece parses, and then statement k equals Parse(piece k) up to the span shift. Non-trivial = at least one semicolon token and (a semicolon byte that is not a token, or a semicolon directly after a look-ahead character); distinct = distinct strings.",
+		Assumptions: []string{"reflective structural comparison over the exported AST fields defines 'the same statement'"},
+	},
+	"C07": {
+		Stages: []Stage{
+			{Name: "exhaustive", Test: "TestC07Exhaustive", Shards: [2]int{4, 16}, Timeout: [2]time.Duration{5 * min, 30 * min}},
+			{Name: "exprs", Test: "TestC07Exprs", Shards: [2]int{2, 16}, Checks: [2]int{3000, 30000}, SeedOffset: 1, Timeout: [2]time.Duration{5 * min, 30 * min}},
+			{Name: "programs", Test: "TestC07Programs", Shards: [2]int{4, 16}, Checks: [2]int{2500, 30000}, SeedOffset: 2, Timeout: [2]time.Duration{5 * min, 30 * min}},
+		},
+		Rule: "exhaustive: every token sequence operand (op operand){1..3} (thorough: ..4) over the 16 binary operators with every sign pattern, expected tree from a reference precedence parser written from the C07 statement; exprs: rapid-generated expression trees to depth 7/10 (calls, one index, nested and redundant parentheses, in-lists), two layouts each; programs: rapid-generated programs (all eleven operators with every optional part, lets, empty statements, nested joins, hostile names/strings), two layouts each, keyword synonyms drawn at random. Oracle: parser.Parse succeeds and the tree (read through exported fields, positions ignored, sort-term booleans taken from the parser) equals the expected canonical tree; parser.Scan equals the printed token list. Non-trivial = >= 2 binary operators of different kinds, or a sign next to index/call, or an operator with an optional part / column list, or a layout with newline, tab or comment; distinct = canonical tree x layout class.",
+		Assumptions: []string{
+			"the reference expression parser (harness/gen/refparse.go) transcribes the C07 statement",
+			"contextual words asc/desc/nulls/first/last are not used as bare names, `let` is not used as a table name (the property does not say they belong to the grammar there)",
+			"chained indexing, calls on quoted or qualified names are not generated (C07 does not claim them)",
+		},
+	},
+	"C08": {
+		Stages: []Stage{
+			{Name: "soups", Test: "TestC08Exhaustive", Shards: [2]int{6, 16}, Timeout: [2]time.Duration{5 * min, 40 * min}},
+			{Name: "mutants", Test: "TestC08Mutants", Shards: [2]int{4, 16}, Checks: [2]int{6000, 100000}, SeedOffset: 1, Timeout: [2]time.Duration{5 * min, 40 * min}},
+			{Name: "fuzz", Fuzz: "FuzzC08Accept", Shards: [2]int{0, 1}, FuzzTime: [2]time.Duration{0, 4 * min}},
+		},
+		Rule: "soups: every sequence of <= 6 tokens over an 8-symbol alphabet and <= 4 over a 13-symbol one (thorough: <= 6 over 13 symbols) spliced into eight expression/operator contexts, each visited once (an accepted soup counts as non-trivial); mutants: rapid-generated grammar programs (all operators, lets, nested joins, hostile names) printed in a random layout and corrupted by 1-3 token-level edits (delete, insert incl. error lexemes, duplicate, transpose, truncate, replace, append) or byte-level splices of hostile constants; thorough adds a coverage-guided native fuzz campaign seeded with the goldens. Oracle, whenever Parse returns nil error: Scan holds no error token, and the token sequence re-printed from the tree through exported fields equals Scan's (kind, value) sequence except for a comma directly before the ')' closing a call, a comma directly before summarize's `by`, and empty statements. Non-trivial = an accepted mutant (Parse succeeded on a corrupted program) or an input that uses an allowed absence; distinct = distinct sources.",
+		Assumptions: []string{"the re-printer (harness/astx/reprint.go) prints optional parts iff their span is valid or their node is non-nil; keyword synonyms are accepted as sets"},
+	},
 }
